@@ -530,6 +530,75 @@ CLI = r"""
 """
 
 
+PEM = r"""
+    // C14 battery: strict RFC 7468 check of every PEM text rcgen produces, against the DER accessors; loaders recover the same bytes
+    use rcgen::*;
+    fn b64(c: u8) -> Option<u32> { match c { b'A'..=b'Z' => Some((c - b'A') as u32), b'a'..=b'z' => Some((c - b'a') as u32 + 26), b'0'..=b'9' => Some((c - b'0') as u32 + 52), b'+' => Some(62), b'/' => Some(63), _ => None } }
+    fn strict_decode(text: &str, label: &str) -> Vec<u8> {
+        assert!(!text.contains('\r'), "{}: CR in PEM text on a non-Windows platform", label);
+        assert!(text.ends_with('\n'), "{}: no final line ending", label);
+        let lines: Vec<&str> = text[..text.len() - 1].split('\n').collect();
+        assert_eq!(lines[0], format!("-----BEGIN {}-----", label), "{}: BEGIN line", label);
+        assert_eq!(lines[lines.len() - 1], format!("-----END {}-----", label), "{}: END line", label);
+        let body = &lines[1..lines.len() - 1];
+        assert!(!body.is_empty(), "{}: empty body", label);
+        for (i, l) in body.iter().enumerate() {
+            if i + 1 < body.len() { assert_eq!(l.len(), 64, "{}: line {} has {} characters", label, i + 1, l.len()); }
+            else { assert!(l.len() >= 1 && l.len() <= 64, "{}: last line has {} characters", label, l.len()); }
+        }
+        let all: Vec<u8> = body.concat().into_bytes();
+        assert_eq!(all.len() % 4, 0, "{}: base64 length", label);
+        let pad = all.iter().rev().take_while(|c| **c == b'=').count();
+        assert!(pad <= 2, "{}: padding", label);
+        let mut out = vec![];
+        for (qi, q) in all.chunks(4).enumerate() {
+            let last = qi + 1 == all.len() / 4;
+            let mut v = 0u32; let mut n = 0;
+            for (k, c) in q.iter().enumerate() {
+                if *c == b'=' { assert!(last && k >= 4 - pad, "{}: '=' inside the data", label); v <<= 6; } else { v = (v << 6) | b64(*c).unwrap_or_else(|| panic!("{}: character {:?} outside the base64 alphabet", label, *c as char)); n += 1; }
+            }
+            let bytes = [(v >> 16) as u8, (v >> 8) as u8, v as u8];
+            let take = match n { 4 => 3, 3 => 2, 2 => 1, _ => panic!("{}: bad quantum", label) };
+            if n == 3 { assert_eq!(v & 0xff, 0, "{}: non-canonical padding bits", label); }
+            if n == 2 { assert_eq!(v & 0xffff, 0, "{}: non-canonical padding bits", label); }
+            out.extend_from_slice(&bytes[..take]);
+        }
+        out
+    }
+    let ca_key = KeyPair::generate().unwrap();
+    for (round, alg) in [&PKCS_ECDSA_P256_SHA256, &PKCS_ECDSA_P384_SHA384, &PKCS_ED25519].iter().enumerate() { for n_sans in [0usize, 1, 7] {
+        let key = KeyPair::generate_for(alg).unwrap();
+        let mut p = CertificateParams::new((0..n_sans).map(|i| format!("host{}-{}.example", round, i)).collect::<Vec<_>>()).unwrap();
+        p.is_ca = IsCa::Ca(BasicConstraints::Unconstrained);
+        p.key_usages = vec![KeyUsagePurpose::KeyCertSign, KeyUsagePurpose::CrlSign];
+        let cert = p.clone().self_signed(&key).unwrap();
+        assert_eq!(strict_decode(&cert.pem(), "CERTIFICATE"), cert.der().to_vec(), "certificate PEM does not decode to der()");
+        let mut pr = p.clone(); pr.is_ca = IsCa::NoCa;
+        let csr = pr.serialize_request(&key).unwrap();
+        assert_eq!(strict_decode(&csr.pem().unwrap(), "CERTIFICATE REQUEST"), csr.der().to_vec(), "CSR PEM does not decode to der()");
+        let crl = CertificateRevocationListParams { this_update: date_time_ymd(2024, 1, 1), next_update: date_time_ymd(2025, 1, 1), crl_number: SerialNumber::from(7u64),
+            issuing_distribution_point: None, revoked_certs: (0..n_sans).map(|i| RevokedCertParams { serial_number: SerialNumber::from(100 + i as u64),
+                revocation_time: date_time_ymd(2024, 1, 1), reason_code: None, invalidity_date: None }).collect(), key_identifier_method: KeyIdMethod::Sha256 }
+            .signed_by(&cert, &key).unwrap();
+        assert_eq!(strict_decode(&crl.pem().unwrap(), "X509 CRL"), crl.der().to_vec(), "CRL PEM does not decode to der()");
+        assert_eq!(strict_decode(&key.serialize_pem(), "PRIVATE KEY"), key.serialize_der(), "private key PEM does not decode to serialize_der()");
+        assert_eq!(strict_decode(&key.public_key_pem(), "PUBLIC KEY"), key.public_key_der(), "public key PEM does not decode to public_key_der()");
+        // rcgen's own loaders accept the text and recover the same bytes
+        let k2 = KeyPair::from_pem(&key.serialize_pem()).expect("from_pem refuses serialize_pem()");
+        assert_eq!(k2.serialize_der(), key.serialize_der()); assert_eq!(k2.public_key_der(), key.public_key_der());
+        let k3 = KeyPair::from_pem_and_sign_algo(&key.serialize_pem(), alg).expect("from_pem_and_sign_algo refuses serialize_pem()");
+        assert_eq!(k3.serialize_der(), key.serialize_der());
+        let imported = CertificateParams::from_ca_cert_pem(&cert.pem()).expect("from_ca_cert_pem refuses pem()");
+        assert_eq!(imported, CertificateParams::from_ca_cert_der(cert.der()).unwrap(), "PEM and DER import disagree");
+        let req = CertificateSigningRequestParams::from_pem(&csr.pem().unwrap()).expect("from_pem refuses a CSR's pem()");
+        assert_eq!(req.public_key.der_bytes(), key.public_key_raw());
+        let spki = SubjectPublicKeyInfo::from_pem(&key.public_key_pem()).expect("SubjectPublicKeyInfo::from_pem refuses public_key_pem()");
+        assert_eq!(spki.der_bytes(), key.public_key_raw());
+        let _ = &ca_key;
+    } }
+"""
+
+
 def program(cex: dict) -> str:
     op = cex.get("op")
     pre = ", ".join(f"({t}, {v})" for (t, v) in cex.get("pre", []))
@@ -599,6 +668,8 @@ def program(cex: dict) -> str:
         body = KEYLOAD
     if op == "cli":
         body = CLI
+    if op == "pem":
+        body = PEM
     return PRELUDE + "fn main() {\n" + body + "    println!(\"replay-ok\");\n}\n"
 
 
